@@ -35,6 +35,8 @@ enum Act {
     Deliver(usize),
     PeerConnect(usize),
     PeerScript(usize),
+    /// one scripted step (PeerScript performs one, or - glued scripts - all that are left)
+    PeerScriptOne(usize),
     PeerAck(usize, usize),
     PeerDeviate(usize),
     OpenGate(usize),
@@ -416,6 +418,27 @@ impl SimDriver {
                 self.peer_send(peer, c, Some(pkt), bytes, None);
             }
             Act::PeerScript(c) => {
+                let glued_more = {
+                    let st = self.st.borrow();
+                    let pos = st.peers[c].script_pos;
+                    c == 0 && plan.glue_from.is_some_and(|g| pos >= g) && pos + 1 < plan.peer.script_of(c).len()
+                };
+                self.peer_script_step(c);
+                if glued_more {
+                    // the rest of the script follows at once (same write of the peer, same read of the endpoint)
+                    loop {
+                        let more = {
+                            let st = self.st.borrow();
+                            !st.peers[c].closed && st.peers[c].script_pos < plan.peer.script_of(c).len()
+                        };
+                        if !more {
+                            break;
+                        }
+                        self.peer_script_step(c);
+                    }
+                }
+            }
+            Act::PeerScriptOne(c) => {
                 let mut st = self.st.borrow_mut();
                 let peer = &mut st.peers[c];
                 let step = plan.peer.script_of(peer.conn)[peer.script_pos].clone();
@@ -539,6 +562,10 @@ impl SimDriver {
                 self.w.ev(Ev::Clock { to_ms: t / 1_000_000 });
             }
         }
+    }
+
+    fn peer_script_step(&self, c: usize) {
+        self.exec(Act::PeerScriptOne(c));
     }
 
     /// One letter of Plan::ext_script; skipped when it is not enabled.
